@@ -298,13 +298,9 @@ impl<T: AsRef<str>> TailingSpacesHighlighter for T {
     }
 }
 
+/// Returns the byte offset at which the tailing whitespaces of the input start
 fn space_start_index(input: &str) -> usize {
-    for (i, ch) in input.chars().rev().enumerate() {
-        if !ch.is_whitespace() {
-            return input.len() - i;
-        }
-    }
-    0
+    input.trim_end().len()
 }
 
 fn render_spaces(spaces: &str) -> String {
